@@ -903,7 +903,8 @@ fn generate_hv(ctx: &mut Ctx) {
         run_op(ctx, &op);
     }
     // randomised: shape, dimension, size (valence round a power of two or anywhere), hubs, pools, layout
-    for _ in 0..ctx.budget(10, 150) {
+    // (about 3 s per mesh: eight builds of a graph with millions of entries and the O(n^2) oracle)
+    for _ in 0..ctx.budget(10, 60) {
         let dim = 2 + ctx.rng.usize(2);
         let shape = ctx.rng.usize(HV_NAME.len());
         let top = if ctx.quick() { 2300 } else { 3300 };
